@@ -394,12 +394,10 @@ theorem renderNode_fr (E : Env) {go : Go} (hg : GoFr go) (tpl : Bytes) :
     obtain ⟨name, _, h⟩ := bind_ok h
     dsimp only at h
     split at h
-    · simp only [unsup] at h; cases h
-    · split at h
-      · cases h
-      · obtain ⟨⟨o2, st2⟩, h2, h⟩ := bind_ok h
-        cases h
-        rw [← evalX_ctx E _ _ _ _ _ h1]
+    · cases h
+    · obtain ⟨⟨o2, st2⟩, h2, h⟩ := bind_ok h
+      cases h
+      rw [← evalX_ctx E _ _ _ _ _ h1]
   | .include te names exprs ignoreMissing only sandboxed, st, o, st', h => by
     simp only [renderNode] at h
     obtain ⟨⟨⟨v, fl⟩, st1⟩, h1, h⟩ := bind_ok h
@@ -407,17 +405,15 @@ theorem renderNode_fr (E : Env) {go : Go} (hg : GoFr go) (tpl : Bytes) :
     have i1 := evalX_ctx E _ _ _ _ _ h1
     dsimp only at h
     split at h
-    · simp only [unsup] at h; cases h
     · split at h
-      · split at h
-        · cases h; rw [i1]
-        · cases h
-      · split at h
-        · simp only [rerr] at h; cases h
-        · obtain ⟨⟨vals, st2⟩, h2, h⟩ := bind_ok h
-          obtain ⟨⟨o3, st3⟩, h3, h⟩ := bind_ok h
-          cases h
-          rw [← i1, ← evalArgs_ctx E _ _ _ _ h2]
+      · cases h; rw [i1]
+      · cases h
+    · split at h
+      · simp only [rerr] at h; cases h
+      · obtain ⟨⟨vals, st2⟩, h2, h⟩ := bind_ok h
+        obtain ⟨⟨o3, st3⟩, h3, h⟩ := bind_ok h
+        cases h
+        rw [← i1, ← evalArgs_ctx E _ _ _ _ h2]
   | .macro name _ _ _ _, st, o, st', h => by
     simp only [renderNode, pure_eq_ok] at h; cases h; rfl
   | .importN te alias, st, o, st', h => by
@@ -427,12 +423,10 @@ theorem renderNode_fr (E : Env) {go : Go} (hg : GoFr go) (tpl : Bytes) :
     have i1 := evalX_ctx E _ _ _ _ _ h1
     dsimp only at h
     split at h
-    · simp only [unsup] at h; cases h
-    · split at h
-      · cases h
-      · obtain ⟨⟨o2, st2⟩, h2, h⟩ := bind_ok h
-        cases h
-        rw [← i1]; rfl
+    · cases h
+    · obtain ⟨⟨o2, st2⟩, h2, h⟩ := bind_ok h
+      cases h
+      rw [← i1]; rfl
   | .fromN te names, st, o, st', h => by
     simp only [renderNode] at h
     obtain ⟨⟨⟨v, fl⟩, st1⟩, h1, h⟩ := bind_ok h
@@ -440,13 +434,11 @@ theorem renderNode_fr (E : Env) {go : Go} (hg : GoFr go) (tpl : Bytes) :
     have i1 := evalX_ctx E _ _ _ _ _ h1
     dsimp only at h
     split at h
-    · simp only [unsup] at h; cases h
-    · split at h
-      · cases h
-      · obtain ⟨⟨o2, st2⟩, h2, h⟩ := bind_ok h
-        obtain ⟨ms, _, h⟩ := bind_ok h
-        cases h
-        rw [← i1]; rfl
+    · cases h
+    · obtain ⟨⟨o2, st2⟩, h2, h⟩ := bind_ok h
+      obtain ⟨ms, _, h⟩ := bind_ok h
+      cases h
+      rw [← i1]; rfl
   | .apply filter body, st, o, st', h => by
     simp only [renderNode] at h
     obtain ⟨⟨o1, st1⟩, h1, h⟩ := bind_ok h
@@ -682,7 +674,7 @@ theorem extends_eq {E : Env} {go : Go} {tpl : Bytes} {e : Expr} {st : St} {v fl}
     (h1 : evalX E true e st = .ok ((v, fl), st)) (h2 : toStr v = .ok name)
     (hrel : isRelative name = false) (ht : E.tpl? name = some T') :
     renderNode E go tpl (.extends e) st = restoreCtx st.ctx (go (.root name) (extSt E st)) := by
-  simp only [renderNode, h1, ok_bind, h2, hrel, ht, Bool.false_eq_true, if_false]
+  simp only [renderNode, h1, ok_bind, h2, resolveTpl_of_not_relative hrel, ht, Option.map_some]
   rfl
 
 theorem chain_walk (E : Env) (vars : List (Bytes × Val)) :
@@ -1617,7 +1609,7 @@ theorem import_eq {E : Env} {go : Go} {tpl : Bytes} {te : Expr} {alias : Bytes} 
     renderNode E go tpl (.importN te alias) st =
       .ok ([], { st2 with ctx := st1.ctx.setVar alias (.map (modOf st2.ctx.macros)) }) := by
   unfold libSt at hgo
-  simp only [renderNode, h1, ok_bind, h2, hrel, ht, Bool.false_eq_true, if_false, hgo, pure_eq_ok, modOf]
+  simp only [renderNode, h1, ok_bind, h2, resolveTpl_of_not_relative hrel, ht, Option.map_some, hgo, pure_eq_ok, modOf]
 
 theorem from_eq {E : Env} {go : Go} {tpl : Bytes} {te : Expr} {names : List (Bytes × Bytes)} {st st1 st2 : St} {v fl}
     {L : Bytes} {T : List Node} {o2 : Bytes} {ms}
@@ -1628,7 +1620,7 @@ theorem from_eq {E : Env} {go : Go} {tpl : Bytes} {te : Expr} {names : List (Byt
     renderNode E go tpl (.fromN te names) st =
       .ok ([], { st2 with ctx := { st1.ctx with macros := ms } }) := by
   unfold libSt at hgo
-  simp only [renderNode, h1, ok_bind, h2, hrel, ht, Bool.false_eq_true, if_false, hgo, pure_eq_ok, hb]
+  simp only [renderNode, h1, ok_bind, h2, resolveTpl_of_not_relative hrel, ht, Option.map_some, hgo, pure_eq_ok, hb]
 
 /-- `from … import`: the target name `a` is bound to what the library has under `m`, provided every
     request for the target `a` names the same library macro -/
@@ -1881,13 +1873,11 @@ theorem renderNode_kn (E : Env) {go : Go} (hg : GoKN go) (tpl : Bytes) :
     obtain ⟨name, _, h⟩ := bind_ok h
     dsimp only at h
     split at h
-    · simp only [unsup] at h; cases h
-    · split at h
-      · cases h
-      · obtain ⟨⟨o2, st2⟩, h2, h⟩ := bind_ok h
-        cases h
-        show KN st1.ctx.macros
-        rw [evalX_ctx E _ _ _ _ _ h1]; exact hk
+    · cases h
+    · obtain ⟨⟨o2, st2⟩, h2, h⟩ := bind_ok h
+      cases h
+      show KN st1.ctx.macros
+      rw [evalX_ctx E _ _ _ _ _ h1]; exact hk
   | .include te names exprs ignoreMissing only sandboxed, st, o, st', h, hk => by
     simp only [renderNode] at h
     obtain ⟨⟨⟨v, fl⟩, st1⟩, h1, h⟩ := bind_ok h
@@ -1895,18 +1885,16 @@ theorem renderNode_kn (E : Env) {go : Go} (hg : GoKN go) (tpl : Bytes) :
     have hk1 : KN st1.ctx.macros := by rw [evalX_ctx E _ _ _ _ _ h1]; exact hk
     dsimp only at h
     split at h
-    · simp only [unsup] at h; cases h
     · split at h
-      · split at h
-        · cases h; exact hk1
-        · cases h
-      · split at h
-        · simp only [rerr] at h; cases h
-        · obtain ⟨⟨vals, st2⟩, h2, h⟩ := bind_ok h
-          obtain ⟨⟨o3, st3⟩, h3, h⟩ := bind_ok h
-          cases h
-          show KN st2.ctx.macros
-          rw [evalArgs_ctx E _ _ _ _ h2]; exact hk1
+      · cases h; exact hk1
+      · cases h
+    · split at h
+      · simp only [rerr] at h; cases h
+      · obtain ⟨⟨vals, st2⟩, h2, h⟩ := bind_ok h
+        obtain ⟨⟨o3, st3⟩, h3, h⟩ := bind_ok h
+        cases h
+        show KN st2.ctx.macros
+        rw [evalArgs_ctx E _ _ _ _ h2]; exact hk1
   | .macro name _ _ _ _, st, o, st', h, hk => by
     simp only [renderNode, pure_eq_ok] at h; cases h; exact setKV_kn hk
   | .importN te alias, st, o, st', h, hk => by
@@ -1916,12 +1904,10 @@ theorem renderNode_kn (E : Env) {go : Go} (hg : GoKN go) (tpl : Bytes) :
     have hk1 : KN st1.ctx.macros := by rw [evalX_ctx E _ _ _ _ _ h1]; exact hk
     dsimp only at h
     split at h
-    · simp only [unsup] at h; cases h
-    · split at h
-      · cases h
-      · obtain ⟨⟨o2, st2⟩, h2, h⟩ := bind_ok h
-        cases h
-        exact hk1
+    · cases h
+    · obtain ⟨⟨o2, st2⟩, h2, h⟩ := bind_ok h
+      cases h
+      exact hk1
   | .fromN te names, st, o, st', h, hk => by
     simp only [renderNode] at h
     obtain ⟨⟨⟨v, fl⟩, st1⟩, h1, h⟩ := bind_ok h
@@ -1929,13 +1915,11 @@ theorem renderNode_kn (E : Env) {go : Go} (hg : GoKN go) (tpl : Bytes) :
     have hk1 : KN st1.ctx.macros := by rw [evalX_ctx E _ _ _ _ _ h1]; exact hk
     dsimp only at h
     split at h
-    · simp only [unsup] at h; cases h
-    · split at h
-      · cases h
-      · obtain ⟨⟨o2, st2⟩, h2, h⟩ := bind_ok h
-        obtain ⟨ms, hms, h⟩ := bind_ok h
-        cases h
-        exact bindFrom_kn _ _ _ hms hk1
+    · cases h
+    · obtain ⟨⟨o2, st2⟩, h2, h⟩ := bind_ok h
+      obtain ⟨ms, hms, h⟩ := bind_ok h
+      cases h
+      exact bindFrom_kn _ _ _ hms hk1
   | .apply filter body, st, o, st', h, hk => by
     simp only [renderNode] at h
     obtain ⟨⟨o1, st1⟩, h1, h⟩ := bind_ok h
